@@ -10,12 +10,13 @@ import (
 	orbitdb "berty.tech/go-orbit-db"
 	"berty.tech/go-orbit-db/iface"
 	"berty.tech/go-orbit-db/stores/operation"
+	"berty.tech/go-orbit-db/stores/replicator"
 	cid "github.com/ipfs/go-cid"
 )
 
 func init() {
 	Register(&Scenario{Prop: "C10", Name: "rejected-do-not-block", Run: scenC10, SoftParks: true, Weight: 1,
-		Rule: "honest writer W, receiver R (ReplicationConcurrency in {1,2,32}) and an adversary; W writes 1-3 entries that R replicates (in a quarter of the runs none: R has never checked an entry of W's), then 1-4 more while R is cut off (their announcements are lost); after the heal, before any honest exchange, the adversary announces to R 1-3 messages whose head lists mix copies of W's valid current heads with 1-3 rejected heads drawn from {non-writer author, writer's identity block with a foreign signature, the same keyed with the forger's key, the same naming a predecessor nobody holds, (a third of the runs: the adversary is a listed writer) a valid entry of the adversary on top of such a forged entry, entry of another database written by W, valid entry with a wrong claimed hash} at every position (permutation drawn per run), block fetches complete in a drawn order; then W's valid heads are announced again by an honest message (topic announcement, head exchange after the pollers notice the heal, or manual Sync, drawn per run); oracle: at rest R holds every entry W wrote; non-trivial = at least one mixed message (valid and rejected heads together) was processed and R lacked >=1 valid entry before it"})
+		Rule: "honest writer W, receiver R (ReplicationConcurrency in {1,2,32}) and an adversary; W writes 1-3 entries that R replicates (in a quarter of the runs none: R has never checked an entry of W's), then 1-4 more while R is cut off (their announcements are lost); after the heal, before any honest exchange, the adversary announces to R 1-3 messages whose head lists mix copies of W's valid current heads with 1-3 rejected heads drawn from {non-writer author, writer's identity block with a foreign signature, the same keyed with the forger's key, the same naming a predecessor nobody holds, (a third of the runs: the adversary is a listed writer) a valid entry of the adversary on top of such a forged entry, or on top of an entry W wrote for another database (refused by the replicator while it fetches the ancestry), entry of another database written by W, valid entry with a wrong claimed hash} at every position (permutation drawn per run), block fetches complete in a drawn order; in half the runs with a listed adversary it then floods: while R's store holds a fetched batch with a log the join refuses, one message announces 140 valid heads of the adversary's own (more than the 128 replicator events the store queues), and the store goes on; then W's valid heads are announced again by an honest message (topic announcement, head exchange after the pollers notice the heal, or manual Sync, drawn per run); oracle: at rest R holds every entry W wrote; non-trivial = at least one mixed message (valid and rejected heads together) was processed and R lacked >=1 valid entry before it"})
 }
 
 func scenC10(k *K) {
@@ -161,6 +162,19 @@ func scenC10(k *K) {
 				return nil
 			}
 			return child
+		case "foreign-ancestor":
+			// a valid entry of the misbehaving writer that names, next to the current valid
+			// heads, an entry W wrote for another database: the head passes every check made
+			// on an announcement, the replicator meets the foreign entry while it fetches the
+			// ancestry and refuses it there
+			if !collude || foreign == nil {
+				return nil
+			}
+			child, err := adv.Craft("own", adv.Own, nil, c.Addr, mkPayload(fmt.Sprintf("child-of-foreign-%d", n)), append([]cid.Cid{foreign.Hash}, next...), maxT+1)
+			if err != nil {
+				return nil
+			}
+			return child
 		case "foreign-db":
 			if foreign == nil {
 				return nil
@@ -186,7 +200,7 @@ func scenC10(k *K) {
 	}
 	kinds := []string{"nonwriter", "forged-block", "foreign-db", "wrong-hash", "forged-dangling", "forged-block-and-key"}
 	if collude {
-		kinds = append(kinds, "forged-ancestor", "forged-ancestor")
+		kinds = append(kinds, "forged-ancestor", "forged-ancestor", "foreign-ancestor", "foreign-ancestor")
 	}
 	mixed := 0
 	nmsg := k.C.Range(1, 3)
@@ -220,6 +234,38 @@ func scenC10(k *K) {
 		k.Steps(k.C.Range(2, 20))
 	}
 	k.Steps(k.C.Range(5, 40))
+	if collude && k.C.Chance(1, 2) {
+		// the misbehaving writer floods: while R's store sits on a fetched batch that holds a
+		// log the join refuses (its valid entry on top of a forged one), it announces 140
+		// valid heads of its own in one message (more than the 128 events R's store lets
+		// the replicator queue); then the store goes on with the batch
+		k.InstallHooks(func(pt string, owner interface{}) bool {
+			o, ok := owner.(interface{ Replicator() replicator.Replicator })
+			return pt == "store.load-end" && ok && o.Replicator() == R.Replicator()
+		})
+		if e := bad("forged-ancestor", 900); e != nil {
+			adv.Deliver("direct", c.Peers[1], R, e)
+			parked := false
+			for j := 0; j < 300 && !parked; j++ {
+				k.Step()
+				parked = len(k.Parks()) > 0
+			}
+			if parked {
+				var flood []*entry.Entry
+				for j := 0; j < 140; j++ {
+					if f, err := adv.Craft("own", adv.Own, nil, c.Addr, mkPayload(fmt.Sprintf("flood-%d", j)), nil, 1); err == nil {
+						flood = append(flood, f)
+					}
+				}
+				adv.Deliver([]string{"topic", "direct"}[k.C.Intn(2)], c.Peers[1], R, flood...)
+				k.Steps(k.C.Range(10, 60))
+				k.W.Stat("flood-of-valid-heads-beside-refused-batch")
+			}
+		}
+		k.ReleaseAllParks()
+		k.RemoveHooks()
+		k.Steps(k.C.Range(5, 40))
+	}
 	// honest re-announcement of the valid heads
 	how := k.C.Intn(3)
 	switch how {
